@@ -9,6 +9,9 @@
 //	get <target> <regular> <batch n|f|r> <maxBatch> <cont> <verdict> [ resp ... ]
 //	   => <ret:fid:v | err:kind> prog [n|p|f ...] rg <start>:<stop>|- cache [blk:fid:size:v ...] db [blk:fid:v ...] puts [blk:fid ...]
 //	   (puts: what the call handed to FilterDB.PutFilters, in order)
+//	   a get line may end in `bg <k> <commits> <ballast> [blk:fid ...]`: right after the k-th read transaction
+//	   of the filter database within the call was closed, a concurrent writer persisted these (true) filters
+//	   in <commits> write transactions and wrote <ballast> bytes to another bucket of the same bbolt file
 //	recommit <h> [ header ids ... ] => ok
 //	restart => ok
 //
@@ -27,6 +30,7 @@ import (
 	"math/rand"
 	"os"
 	"path/filepath"
+	"runtime/debug"
 	"sort"
 	"strconv"
 	"strings"
@@ -348,15 +352,18 @@ type putRec struct {
 	nbytes []byte
 }
 
+// It embeds the CONCRETE store, not the FilterDatabase interface: whatever further
+// methods the real store has (range fetches, ...) stay reachable through interface
+// assertions of the code under test.
 type countDB struct {
-	filterdb.FilterDatabase
+	*filterdb.FilterStore
 	mu  sync.Mutex
 	n   int
 	log []putRec // every filter handed to PutFilters, in order
 }
 
 func (c *countDB) PutFilters(fs ...*filterdb.FilterData) error {
-	err := c.FilterDatabase.PutFilters(fs...)
+	err := c.FilterStore.PutFilters(fs...)
 	c.mu.Lock()
 	c.n += len(fs)
 	for _, f := range fs {
@@ -380,6 +387,105 @@ func (c *countDB) takeLog() []putRec {
 }
 
 func (c *countDB) count() int { c.mu.Lock(); defer c.mu.Unlock(); return c.n }
+
+// hookDB is the real walletdb (bbolt) of the filter database with one hook: right
+// after the at-th read transaction since arming has been CLOSED, a concurrent
+// writer runs (several committed write transactions on the same file).  All
+// transactions are real bbolt transactions of the embedded database.
+type hookDB struct {
+	walletdb.DB
+	mu    sync.Mutex
+	at    int // fire after the at-th View (1-based); 0: disarmed
+	views int
+	hook  func()
+	fired bool
+}
+
+func (d *hookDB) View(f func(tx walletdb.ReadTx) error, reset func()) error {
+	err := d.DB.View(f, reset)
+	d.mu.Lock()
+	run := false
+	if d.at > 0 {
+		d.views++
+		if d.views == d.at {
+			run, d.at, d.fired = true, 0, true
+		}
+	}
+	h := d.hook
+	d.mu.Unlock()
+	if run && h != nil {
+		h()
+	}
+	return err
+}
+
+func (d *hookDB) Batch(f func(tx walletdb.ReadWriteTx) error) error {
+	if b, ok := d.DB.(walletdb.BatchDB); ok {
+		return b.Batch(f)
+	}
+	return d.DB.Update(f, func() {})
+}
+
+func (d *hookDB) arm(at int, h func()) {
+	d.mu.Lock()
+	d.at, d.views, d.hook, d.fired = at, 0, h, false
+	d.mu.Unlock()
+}
+
+func (d *hookDB) disarm() bool {
+	d.mu.Lock()
+	defer d.mu.Unlock()
+	d.at, d.hook = 0, nil
+	return d.fired
+}
+
+var ballastBucket = []byte("verif-ballast")
+
+// bgWriter is what the concurrent writer does: the given (true, verified) filters of
+// other blocks are persisted through the real store in `commits` write transactions,
+// and `ballast` bytes are written to (and old ballast deleted from) another bucket of
+// the same bbolt file, so that pages are freed and re-used and the file grows and is
+// re-mapped.
+func (w *world) bgWriter(blks []int, commits int, ballast int) {
+	u := w.u
+	if commits < 1 {
+		commits = 1
+	}
+	per := (len(blks) + commits - 1) / commits
+	for c := 0; c < commits; c++ {
+		var items []*filterdb.FilterData
+		for i := c * per; i < (c+1)*per && i < len(blks); i++ {
+			h := blks[i]
+			items = append(items, &filterdb.FilterData{Filter: u.truF[h], BlockHash: &u.hashes[h], Type: filterdb.RegularFilter})
+		}
+		if len(items) > 0 {
+			if err := w.fdb.FilterStore.PutFilters(items...); err != nil {
+				panic(err)
+			}
+		}
+		if ballast > 0 {
+			w.ballastSeq++
+			seq := w.ballastSeq
+			err := walletdb.Update(w.db, func(tx walletdb.ReadWriteTx) error {
+				b, err := tx.CreateTopLevelBucket(ballastBucket)
+				if err != nil {
+					return err
+				}
+				if seq > 2 {
+					_ = b.Delete([]byte(fmt.Sprintf("b%06d", seq-2)))
+				}
+				v := make([]byte, ballast/commits+1)
+				for i := range v {
+					v[i] = byte(seq*31 + i)
+				}
+				return b.Put([]byte(fmt.Sprintf("b%06d", seq)), v)
+			})
+			if err != nil {
+				panic(err)
+			}
+		}
+	}
+}
 
 type resp struct {
 	msg  wire.Message
@@ -457,6 +563,8 @@ type world struct {
 	u       *universe
 	dir     string
 	db      walletdb.DB
+	hdb     *hookDB
+	ballastSeq int
 	fdb     *countDB
 	cache   *lru.Cache[neutrino.FilterCacheKey, *neutrino.CacheableFilter]
 	cap     uint64
@@ -467,6 +575,8 @@ type world struct {
 	hid     map[chainhash.Hash]int
 	bid     map[chainhash.Hash]int // unknown block hashes
 	touched map[int]bool           // heights whose DB entry we read back
+	bg      *bgPlan                // concurrent writer of the next get
+	bgFired bool                   // ... and whether it ran
 	tick    time.Duration
 }
 
@@ -477,11 +587,12 @@ func newWorld(r *rand.Rand, cap uint64, persist bool) *world {
 	if err != nil {
 		panic(err)
 	}
-	fdb, err := filterdb.New(db, params)
+	hdb := &hookDB{DB: db}
+	fdb, err := filterdb.New(hdb, params)
 	if err != nil {
 		panic(err)
 	}
-	w := &world{u: u, dir: dir, db: db, fdb: &countDB{FilterDatabase: fdb}, cap: cap, persist: persist,
+	w := &world{u: u, dir: dir, db: db, hdb: hdb, fdb: &countDB{FilterStore: fdb}, cap: cap, persist: persist,
 		fid: map[[32]byte]int{}, hid: map[chainhash.Hash]int{}, bid: map[chainhash.Hash]int{}, touched: map[int]bool{},
 		tick: time.Millisecond}
 	caseNo++
@@ -769,6 +880,47 @@ func (w *world) mkResp(t *tr.W, r *rand.Rand, h int, lo, hi int) resp {
 	return resp{msg: m, tok: "o"}
 }
 
+// bgPlan: a writer that commits right after the at-th read transaction of the filter
+// database within one GetCFilter call has been closed.
+type bgPlan struct {
+	at      int
+	blks    []int // heights whose true filters it persists
+	commits int
+	ballast int
+}
+
+func (w *world) bgTok(b *bgPlan) string {
+	var ws []string
+	for _, h := range b.blks {
+		ws = append(ws, fmt.Sprintf("%d:%d", h, w.filterID(nbytes(w.u.truF[h]))))
+	}
+	return fmt.Sprintf("bg %d %d %d [%s]", b.at, b.commits, b.ballast, strings.Join(ws, " "))
+}
+
+// allKeys lists every key of the regular-filter bucket, read from the bbolt file itself.
+func (w *world) allKeys() []chainhash.Hash {
+	var ks []chainhash.Hash
+	_ = walletdb.View(w.db, func(tx walletdb.ReadTx) error {
+		b := tx.ReadBucket([]byte("filter-store"))
+		if b == nil {
+			return nil
+		}
+		rb := b.NestedReadBucket([]byte("regular"))
+		if rb == nil {
+			return nil
+		}
+		return rb.ForEach(func(k, _ []byte) error {
+			var h chainhash.Hash
+			if len(k) == len(h) {
+				copy(h[:], k)
+				ks = append(ks, h)
+			}
+			return nil
+		})
+	})
+	return ks
+}
+
 type callRes struct {
 	f   *gcs.Filter
 	err error
@@ -782,6 +934,10 @@ func (w *world) dump() (string, string) {
 		ents = append(ents, fmt.Sprintf("%d:%d:%d:%s", blk, w.filterID(nbytes(v.Filter)), sz, b01(w.verified(blk, v.Filter))))
 		return true
 	})
+	// the WHOLE database: every key the bbolt file holds, not only the blocks this case asked for
+	for _, k := range w.allKeys() {
+		w.touched[w.blkID(k)] = true
+	}
 	var hs []int
 	for h := range w.touched {
 		hs = append(hs, h)
@@ -838,8 +994,16 @@ func (w *world) get(t *tr.W, target int, th chainhash.Hash, regular bool, batch 
 	w.touched[target] = true
 	before := w.fdb.count()
 	w.fdb.takeLog()
+	w.bgFired = false
+	if bg := w.bg; bg != nil {
+		w.hdb.arm(bg.at, func() { w.bgWriter(bg.blks, bg.commits, bg.ballast) })
+		defer func() { w.bg = nil }()
+	}
 	ch := make(chan callRes, 1)
 	go func() {
+		// a read of database memory after its transaction was closed may hit a page that
+		// has been unmapped: make that a panic of this goroutine, not the death of the process
+		debug.SetPanicOnFault(true)
 		defer func() {
 			if e := recover(); e != nil {
 				fmt.Fprintln(os.Stderr, "PANIC in GetCFilter:", e); ch <- callRes{err: fmt.Errorf("PANIC %v", e)}
@@ -877,8 +1041,10 @@ func (w *world) get(t *tr.W, target int, th chainhash.Hash, regular bool, batch 
 			res = "err:other(" + strings.ReplaceAll(cr.err.Error(), " ", "_") + ")"
 		}
 	case <-time.After(10 * time.Second):
+		w.hdb.disarm()
 		return "HANG"
 	}
+	w.bgFired = w.hdb.disarm()
 	if strings.HasPrefix(res, "ret:") {
 		t.Hit("cf.result.ret")
 	} else {
@@ -1307,6 +1473,242 @@ func (w *world) reorgCall(t *tr.W, r *rand.Rand) {
 	}
 }
 
+// curGood returns the filter of block h that matches the filter headers committed
+// NOW (the true one, or the alternative one after a re-commit), nil if neither does.
+func (w *world) curGood(h int) *gcs.Filter {
+	u := w.u
+	if h < 1 || h > u.ftip || h >= len(u.cur) {
+		return nil
+	}
+	for _, f := range []*gcs.Filter{u.truF[h], u.altF[h]} {
+		if x, err := builder.MakeHeaderForFilter(f, u.cur[h-1]); err == nil && x == u.cur[h] {
+			return f
+		}
+	}
+	return nil
+}
+
+// honestGet issues one GetCFilter call whose peers answer every block of the range
+// honestly with respect to the headers committed now (nothing is sent when the call is
+// served from the cache or the database: the dispatcher is not reached).
+func (w *world) honestGet(t *tr.W, target int, batch string, maxBatch int64, drop func(h int) bool, verdict string) string {
+	u := w.u
+	lo, hi := aim(target, u.ftip, batch, maxBatch)
+	var resps []resp
+	var toks []string
+	for h := lo; h <= hi; h++ {
+		f := w.curGood(h)
+		if f == nil || (drop != nil && drop(h)) {
+			continue
+		}
+		rp := w.mkCF(t, wire.GCSFilterRegular, u.hashes[h], nbytes(f), "good")
+		resps = append(resps, rp)
+		toks = append(toks, rp.tok+":1")
+	}
+	bg := w.bg
+	obs := w.get(t, target, u.hashes[target], true, batch, maxBatch, false, verdict, resps)
+	op := fmt.Sprintf("get %d 1 %s %d 0 %s [%s]", target, batch, maxBatch, verdict, strings.Join(toks, " "))
+	if bg != nil && w.bgFired {
+		op += " " + w.bgTok(bg)
+		t.Hit("cf.db.writer-after-read-tx")
+	}
+	t.Op(op, obs)
+	if strings.Contains(obs, " rg - ") && strings.HasPrefix(obs, "ret:") {
+		t.Hit("cf.db.served-without-query." + batch)
+	}
+	return obs
+}
+
+// runDBHist: scripted histories around the filter DATABASE (and the cache in front of
+// it).  The database is filled with the verified filters of a NON-contiguous set of
+// blocks (single fetches, short batches, a batch that was given up half way), the
+// service is restarted (cold cache), and then
+//   - variant 0: a forward (optimistic) batch call is served from the database and the
+//     caller goes on to ask for the following blocks, gap or not;
+//   - variant 1: calls served from the database while a concurrent writer commits (several
+//     write transactions, pages freed and re-used, file grown and re-mapped) between the
+//     end of the read transaction and the use of what it read;
+//   - variant 2: as 0, after the filter headers of the following blocks were re-committed.
+// After every call the whole cache and the whole database are judged against the
+// headers committed at that moment.
+func runDBHist(t *tr.W, r *rand.Rand, variant int) {
+	cap := uint64(3000 + r.Intn(3000))
+	if r.Intn(5) == 0 {
+		cap = uint64(40 + r.Intn(60))
+	}
+	w := newWorld(r, cap, true)
+	u := w.u
+	recommitted := false
+	defer func() {
+		w.close()
+		if recommitted || u.ftip != uniBlocks {
+			u.setFilterHeaders(uniBlocks-40, u.truH[uniBlocks-40:])
+		}
+	}()
+	t.Case("cf cap %d persist 1 tip %d ftip %d maxrange %d", cap, uniBlocks, u.ftip, wire.MaxGetCFiltersReqRange)
+	t.Hit(fmt.Sprintf("cf.dbhist.variant%d", variant))
+	span := 6 + r.Intn(9)
+	base := 2 + r.Intn(uniBlocks-span-60)
+	if variant == 2 || r.Intn(4) == 0 {
+		base = uniBlocks - span - 1 - r.Intn(20) // in reach of a re-commit / near the tip
+	}
+	bad := func(obs string) bool { return strings.HasPrefix(obs, "HANG") || strings.HasPrefix(obs, "PANIC") }
+	// which blocks of [base, base+span] get persisted: base always, a gap among the next three on purpose
+	present := map[int]bool{base: true}
+	for h := base + 1; h <= base+span; h++ {
+		present[h] = r.Intn(3) > 0
+	}
+	gapAt := base + 1 + r.Intn(3)
+	present[gapAt] = false
+	present[gapAt+1] = true
+	if r.Intn(3) == 0 {
+		present[gapAt+2] = true
+	}
+	// phase A: fill the database
+	for h := base; h <= base+span; h++ {
+		if !present[h] {
+			continue
+		}
+		run := 1
+		for present[h+run] && h+run <= base+span {
+			run++
+		}
+		switch {
+		case run >= 2 && r.Intn(2) == 0:
+			// one forward batch over the contiguous run
+			if bad(w.honestGet(t, h, "f", int64(run), nil, "nil")) {
+				return
+			}
+			h += run - 1
+		case r.Intn(5) == 0 && !present[h+1] && !present[h+2] && h+2 <= base+span:
+			// a batch that was given up: only its first block arrives, the dispatcher fails
+			if bad(w.honestGet(t, h, "f", 3, func(x int) bool { return x != h }, "err")) {
+				return
+			}
+			t.Hit("cf.dbhist.aborted-batch")
+		default:
+			if bad(w.honestGet(t, h, "n", 0, nil, "nil")) {
+				return
+			}
+		}
+	}
+	w.boot()
+	t.Op("restart", "ok")
+	t.Hit("cf.op.restart")
+	others := func(n int) []int {
+		var hs []int
+		for len(hs) < n {
+			h := 1 + r.Intn(uniBlocks)
+			if r.Intn(3) == 0 {
+				h = base + r.Intn(span+1) // also the gaps of the span itself
+			}
+			if h == 0 || present[h] {
+				continue
+			}
+			hs = append(hs, h)
+		}
+		return hs
+	}
+	switch variant {
+	case 1:
+		for n := 2 + r.Intn(4); n > 0; n-- {
+			var cands []int
+			for h := range present {
+				if present[h] && h <= base+span {
+					cands = append(cands, h)
+				}
+			}
+			sort.Ints(cands)
+			h := cands[r.Intn(len(cands))]
+			bg := &bgPlan{at: 1, commits: 2 + r.Intn(3), blks: others(1 + r.Intn(8))}
+			switch r.Intn(4) {
+			case 0:
+				bg.ballast = 40000 + r.Intn(400000) // the file grows and is re-mapped
+				t.Hit("cf.dbhist.writer.ballast-remap")
+			case 1:
+				bg.blks = others(60 + r.Intn(120)) // many PutFilters: the bucket itself is split and moved
+				t.Hit("cf.dbhist.writer.many-puts")
+			case 2:
+				bg.ballast = 500 + r.Intn(3000)
+				t.Hit("cf.dbhist.writer.small-ballast")
+			default:
+				t.Hit("cf.dbhist.writer.few-puts")
+			}
+			if r.Intn(6) == 0 {
+				bg.at = 2 // after a second read transaction of the same call, if there is one
+			}
+			w.bg = bg
+			batch := []string{"n", "f", "r"}[r.Intn(3)]
+			if bad(w.honestGet(t, h, batch, int64(1+r.Intn(5)), nil, "nil")) {
+				return
+			}
+			for _, x := range bg.blks {
+				if w.bgFired {
+					present[x] = true
+				}
+			}
+			if r.Intn(3) == 0 {
+				w.boot()
+				t.Op("restart", "ok")
+			}
+		}
+		return
+	case 2:
+		// other headers from a block FOLLOWING base on (base itself keeps its pair)
+		h := base + 1 + r.Intn(3)
+		n := u.ftip - h + 1
+		var hdrs []chainhash.Hash
+		var ids []string
+		prev := u.cur[h-1]
+		for i := 0; i < n; i++ {
+			f := u.truF[h+i]
+			if i == 0 || r.Intn(2) == 0 {
+				f = u.altF[h+i]
+			}
+			x, err := builder.MakeHeaderForFilter(f, prev)
+			if err != nil {
+				panic(err)
+			}
+			hdrs = append(hdrs, x)
+			ids = append(ids, strconv.Itoa(w.hdrID(x)))
+			prev = x
+		}
+		u.setFilterHeaders(h, hdrs)
+		recommitted = true
+		t.Op(fmt.Sprintf("recommit %d [%s]", h, strings.Join(ids, " ")), "ok")
+		t.Hit("cf.op.recommit")
+	}
+	// the forward batch call answered from the database ...
+	mb := []int64{0, 0, int64(3 + r.Intn(6)), 64, 65}[r.Intn(5)]
+	if bad(w.honestGet(t, base, "f", mb, nil, "nil")) {
+		return
+	}
+	// ... and the caller walks on: the following blocks, first the one right after which a gap lies
+	for h := base + 1; h <= base+span && h <= u.ftip; h++ {
+		batch := "f"
+		if r.Intn(3) == 0 {
+			batch = "n"
+		}
+		m := []int64{0, 1, 2, int64(2 + r.Intn(5))}[r.Intn(4)]
+		if present[h] {
+			t.Hit("cf.dbhist.walk.persisted")
+		} else {
+			t.Hit("cf.dbhist.walk.gap")
+		}
+		obs := w.honestGet(t, h, batch, m, nil, "nil")
+		if bad(obs) {
+			return
+		}
+		// what a batch fetched is persisted as well
+		lo, hi := aim(h, u.ftip, batch, m)
+		if strings.Contains(obs, " rg "+strconv.Itoa(lo)+":") {
+			for x := lo; x <= hi; x++ {
+				present[x] = true
+			}
+		}
+	}
+}
+
 func init() {
 	tr.Register("filter", func(t *tr.W, thorough bool) {
 		r := tr.Rng(5)
@@ -1329,6 +1731,11 @@ func init() {
 			default:
 				runCase(t, r, "plain")
 			}
+		}
+		// scripted database histories: a PRNG stream of their own, the random cases stay as they were
+		rh := tr.Rng(505)
+		for i := 0; i < n/8; i++ {
+			runDBHist(t, rh, i%3)
 		}
 		if uni != nil { // the universe may live on /dev/shm, which bin/check does not clean
 			uni.db.Close()
